@@ -122,13 +122,14 @@ Qed.
 Theorem reach_in_WS s :
   (forall s0, do_fxop sc (fq_world sc, init_env) FXInit = (s0, 0) -> WS s0) -> reach_in sc s -> WS s.
 Proof.
-  intro I0. induction 1 as [s WF E|s o s' _ IH E|s t k p s' _ IH E|s s' _ IH E|s d en' _ IH E].
+  intro I0. induction 1 as [s WF E|s o s' _ IH E|s t k p s' _ IH E|s s' _ IH E|s d en' _ IH E|s d ups s' _ IH E].
   - apply I0, E.
   - unfold do_fxop in E. apply (WS_fin s (run_uop (fl_fuel (fst s)) (now (snd s)) (fst s) o) s' IH); [apply RJ_run_uop|exact E].
   - unfold do_fxop in E. destruct (apply_cmd wsd (snd s) (CSched t p (-5) (AUser k))) as [en'|en']; [|discriminate].
     injection E as <-. exact IH.
   - eapply step_WS; eauto.
   - exact IH.
+  - unfold do_fxop in E. apply (WS_fin s (late_create (fl_fuel (fst s)) (now (snd s)) (fst s) d ups) s' IH); [apply RJ_late_create|exact E].
 Qed.
 
 (** the condition on the initialised world, as a computation *)
